@@ -156,6 +156,9 @@ func cmdCheck(args []string) int {
 	for _, b := range w.checkImmutables() {
 		violation("immutable/"+b, "a field declared immutable (kept by every havoc in the proofs) is assigned outside its object's construction: "+b, nil, true)
 	}
+	for _, b := range w.checkClosed() {
+		violation("closed/"+b, "an interface declared closed (its method calls are dispatched to the listed types) has an unlisted implementation or a wrong entry: "+b, nil, true)
+	}
 	loadSecs := time.Since(t0).Seconds()
 	var roots []*Contract
 	for _, k := range sortedKeys(w.contracts) {
